@@ -16,12 +16,16 @@ HEADER = "From TL Require Import Lib.Base Lib.GenTypes."
 SERVES = ["C19"]
 P = "src/linters/print_statements/"
 F = "src/linters/performance/"
+SLF = "src/linters/stateless_class/"
 FINGERPRINTS = [
     (P + "python_analyzer.py", ["PythonPrintStatementAnalyzer", "is_print_call", "is_main_if_block"]),
     (P + "linter.py", ["_check_python", "_collect_python_violations", "_try_create_python_violation", "_should_ignore"]),
     (F + "python_analyzer.py", ["PythonStringConcatAnalyzer"]),
     (F + "linter.py", ["StringConcatLoopRule"]),
     ("src/analyzers/ast_utils.py", ["build_parent_map", "_build_parent_map_recursive"]),
+    (SLF + "python_analyzer.py", ["analyze_code", "_find_stateless_classes", "_is_stateless", "_should_skip_class", "is_test_class", "is_mixin_class"]),
+    (SLF + "linter.py", ["StatelessClassRule"]),
+    ("src/linters/method_property/python_analyzer.py", ["PythonMethodAnalyzer"]),
 ]
 
 
@@ -365,6 +369,323 @@ def concat_doc_names():
     return defn("sc_doc_patterns", "list string", coq_str_list(names))
 
 
+# ------------------------------------------------------------------ stateless classes
+SL = "src/linters/stateless_class/"
+
+
+def stateless_class():
+    a = _match(SL + "python_analyzer.py", None, "_find_stateless_classes", """
+results = []
+for node in ast.walk(tree):
+    if isinstance(node, <C:cls>) and _is_stateless(node, min_methods):
+        results.append(ClassInfo(node.name, node.lineno, node.col_offset))
+return results""")
+    _match(SL + "python_analyzer.py", None, "_is_stateless", """
+if _should_skip_class(class_node):
+    return False
+return _count_methods(class_node) >= min_methods""")
+    _match(SL + "python_analyzer.py", None, "_should_skip_class",
+           "return _has_constructor(class_node) or _is_exception_case(class_node) or _has_class_attributes(class_node) or _has_instance_attributes(class_node) or _has_base_classes(class_node)")
+    b = _match(SL + "python_analyzer.py", None, "_has_base_classes", """
+if not class_node.bases:
+    return False
+for base in class_node.bases:
+    base_name = _get_base_name(base)
+    if base_name and base_name not in (<S:obj>,):
+        return True
+return False""")
+    c = _match(SL + "python_analyzer.py", None, "_count_methods", "return sum((1 for item in class_node.body if isinstance(item, <C:fn>)))")
+    d = _match(SL + "python_analyzer.py", None, "_has_constructor", """
+constructor_names = (<S:a>, <S:b>)
+return any((isinstance(item, <C:fn>) and item.name in constructor_names for item in class_node.body))""")
+    _match(SL + "python_analyzer.py", None, "_is_exception_case", """
+if class_node.decorator_list:
+    return True
+return _inherits_from_abc_or_protocol(class_node)""")
+    e = _match(SL + "python_analyzer.py", None, "_inherits_from_abc_or_protocol",
+               "return any((_get_base_name(base) in (<S:a>, <S:b>) for base in class_node.bases))")
+    f = _match(SL + "python_analyzer.py", None, "_get_base_name", """
+if isinstance(base, <C:n>):
+    return base.id
+if isinstance(base, <C:a>):
+    return base.attr
+return ''""")
+    g = _match(SL + "python_analyzer.py", None, "_has_class_attributes",
+               "return any((isinstance(item, (<C:a>, <C:b>)) for item in class_node.body))")
+    h = _match(SL + "python_analyzer.py", None, "_has_instance_attributes",
+               "return any((isinstance(item, <C:fn>) and _method_has_self_assignment(item) for item in class_node.body))")
+    _match(SL + "python_analyzer.py", None, "_method_has_self_assignment",
+           "return any((_is_self_attribute_assignment(node) for node in ast.walk(method)))")
+    i = _match(SL + "python_analyzer.py", None, "_is_self_attribute_assignment", """
+if not isinstance(node, <C:asg>):
+    return False
+return any((_is_self_attribute(t) for t in node.targets))""")
+    j = _match(SL + "python_analyzer.py", None, "_is_self_attribute", """
+if not isinstance(node, <C:a>):
+    return False
+if not isinstance(node.value, <C:n>):
+    return False
+return node.value.id == <S:self>""")
+    if len({c["fn"], d["fn"], h["fn"]}) != 1:
+        raise Unsupported("method class tests disagree")
+    return (_s("sl_class_cls", a["cls"]) + _s("sl_object_name", b["obj"]) + _s("sl_method_cls", c["fn"])
+            + defn("sl_constructor_names", "list string", coq_str_list([d["a"], d["b"]]))
+            + defn("sl_abc_names", "list string", coq_str_list([e["a"], e["b"]]))
+            + _s("sl_base_name_cls", f["n"]) + _s("sl_base_attr_cls", f["a"])
+            + defn("sl_class_attr_classes", "list string", coq_str_list([g["a"], g["b"]]))
+            + _s("sl_assign_cls", i["asg"]) + _s("sl_self_attr_cls", j["a"]) + _s("sl_self_name_cls", j["n"]) + _s("sl_self_name", j["self"]))
+
+
+def stateless_exemptions():
+    a = _match(SL + "python_analyzer.py", None, "is_test_class", """
+if class_node.name.startswith(<S:pfx>):
+    return True
+for base in class_node.bases:
+    base_name = _get_base_name(base)
+    if base_name in (<S:a>, <S:b>):
+        return True
+return False""")
+    b = _match(SL + "python_analyzer.py", None, "is_mixin_class", "return <S:m> in class_node.name.lower()")
+    _match(SL + "linter.py", "StatelessClassRule", "_find_stateless_classes", """
+assert context.file_content is not None
+analyzer = StatelessClassAnalyzer(min_methods=config.min_methods)
+classes = analyzer.analyze(context.file_content)
+if config.exempt_test_classes:
+    classes = self._filter_test_classes(classes, context)
+if config.exempt_mixins:
+    classes = self._filter_mixin_classes(classes, context)
+return classes""")
+    c = _match(SL + "linter.py", "StatelessClassRule", "_parse_class_nodes", """
+if not context.file_content:
+    return None
+try:
+    tree = ast.parse(context.file_content)
+except SyntaxError:
+    return None
+return {node.name: node for node in ast.walk(tree) if isinstance(node, <C:cls>)}""")
+    _match(SL + "linter.py", "StatelessClassRule", "_filter_test_classes", """
+if is_test_file(str(context.file_path) if context.file_path else None):
+    return []
+class_nodes = self._parse_class_nodes(context)
+if class_nodes is None:
+    return classes
+return self._filter_by_predicate(classes, class_nodes, is_test_class)""")
+    _match(SL + "linter.py", "StatelessClassRule", "_filter_by_predicate",
+           "return [info for info in classes if info.name not in class_nodes or not predicate(class_nodes[info.name])]")
+    _match(SL + "linter.py", "StatelessClassRule", "_filter_mixin_classes", """
+class_nodes = self._parse_class_nodes(context)
+if class_nodes is None:
+    return classes
+return self._filter_by_predicate(classes, class_nodes, is_mixin_class)""")
+    if c["cls"] != "ClassDef":
+        raise Unsupported("_parse_class_nodes class")
+    return (_s("sl_test_prefix", a["pfx"]) + defn("sl_test_base_names", "list string", coq_str_list([a["a"], a["b"]])) + _s("sl_mixin_word", b["m"]))
+
+
+def stateless_rule():
+    rid = _match(SL + "linter.py", "StatelessClassRule", "rule_id", "return <S:r>")["r"]
+    fn = find_func(find_class(parse(SL + "linter.py"), "StatelessClassRule"), "_create_violation")
+    msg = [st.value for st in fn.body if isinstance(st, ast.Assign) and ast.unparse(st.targets[0]) == "message"]
+    kws = sorted(ast.unparse(k.value) for n in ast.walk(fn) if isinstance(n, ast.Call) for k in n.keywords if k.arg in ("line", "column", "message"))
+    if len(msg) != 1 or kws != ["info.column", "info.line", "message"]:
+        raise Unsupported("_create_violation shape")
+    parts = []
+    for kind, v in fstring_parts(msg[0]):
+        if kind == "lit":
+            parts.append(f'("lit", {coq_string(v)})')
+        elif v == "info.name":
+            parts.append('("var", "name")')
+        else:
+            raise Unsupported(f"unknown message variable {v}")
+    cfg = find_class(parse(SL + "config.py"), "StatelessClassConfig")
+    d = {}
+    for st in cfg.body:
+        if isinstance(st, ast.AnnAssign) and isinstance(st.target, ast.Name) and st.value is not None and isinstance(st.value, ast.Constant):
+            d[st.target.id] = st.value.value
+    fb = {n.args[0].value: const_value(n.args[1]) for n in ast.walk(find_func(cfg, "from_dict"))
+          if isinstance(n, ast.Call) and isinstance(n.func, ast.Attribute) and n.func.attr == "get" and len(n.args) == 2
+          and isinstance(n.args[0], ast.Constant) and isinstance(n.args[1], ast.Constant)}
+    for k in ("min_methods", "exempt_test_classes", "exempt_mixins"):
+        if k not in d or fb.get(k) != d[k]:
+            raise Unsupported(f"default of {k}: dataclass {d.get(k)}, from_dict {fb.get(k)}")
+    if not isinstance(d["min_methods"], int) or d["min_methods"] < 0:
+        raise Unsupported("min_methods default")
+    return (_s("sl_rule_id", rid) + defn("sl_message", "list (string * string)", coq_list(parts))
+            + defn("sl_min_methods_default", "nat", str(d["min_methods"]))
+            + defn("sl_exempt_test_default", "bool", "true" if d["exempt_test_classes"] else "false")
+            + defn("sl_exempt_mixins_default", "bool", "true" if d["exempt_mixins"] else "false"))
+
+
+# ------------------------------------------------------------------ method-property
+MP = "src/linters/method_property/"
+MA = "PythonMethodAnalyzer"
+
+
+def method_property_walk():
+    a = _match(MP + "python_analyzer.py", MA, "_visit_node", """
+if isinstance(node, <C:cls>):
+    class_id = id(node)
+    if class_id not in self._visited_classes:
+        self._visited_classes.add(class_id)
+        self._analyze_class(node)
+else:
+    for child in ast.iter_child_nodes(node):
+        self._visit_node(child)""")
+    _match(MP + "python_analyzer.py", MA, "_analyze_class", """
+for item in class_node.body:
+    self._process_class_item(item, class_node.name)""")
+    b = _match(MP + "python_analyzer.py", MA, "_process_class_item", """
+if isinstance(item, <C:fn>):
+    self._check_method(item, class_name)
+elif isinstance(item, <C:cls>):
+    self._process_nested_class(item)""")
+    _match(MP + "python_analyzer.py", MA, "_process_nested_class", """
+class_id = id(class_node)
+if class_id in self._visited_classes:
+    return
+self._visited_classes.add(class_id)
+self._analyze_class(class_node)""")
+    _match(MP + "python_analyzer.py", MA, "_check_method", """
+if not self._is_property_candidate(method):
+    return
+is_get_prefix = method.name.startswith('get_') and len(method.name) > 4
+candidate = PropertyCandidate(method_name=method.name, class_name=class_name, line=method.lineno, column=method.col_offset, is_get_prefix=is_get_prefix)
+self.candidates.append(candidate)""")
+    _match(MP + "python_analyzer.py", MA, "_is_property_candidate", """
+checks = [not self._is_dunder_method(method), not self._is_action_verb_method(method), not self._has_decorators(method), self._takes_only_self(method), self._has_simple_body(method), self._returns_value(method), not self._has_side_effects(method), not self._has_control_flow(method), not self._has_external_calls(method)]
+return all(checks)""")
+    if a["cls"] != b["cls"]:
+        raise Unsupported("class tests disagree")
+    return _s("mp_class_cls", a["cls"]) + _s("mp_method_cls", b["fn"])
+
+
+def method_property_names():
+    a = _match(MP + "python_analyzer.py", MA, "_is_dunder_method", """
+name = method.name
+return name.startswith(<S:a>) and name.endswith(<S:b>)""")
+    _match(MP + "python_analyzer.py", MA, "_is_action_verb_method", """
+name = method.name
+stripped_name = name.lstrip('_')
+for prefix in self.exclude_prefixes:
+    if stripped_name.startswith(prefix) and len(stripped_name) > len(prefix):
+        return True
+return name in self.exclude_names or stripped_name in self.exclude_names""")
+    cfg = parse(MP + "config.py")
+    prefixes = str_elems(find_assign(cfg, "DEFAULT_EXCLUDE_PREFIXES"))
+    names = sorted(str_elems(find_assign(cfg, "DEFAULT_EXCLUDE_NAMES")))
+    c = find_class(cfg, "MethodPropertyConfig")
+    d = {}
+    for st in c.body:
+        if isinstance(st, ast.AnnAssign) and isinstance(st.target, ast.Name) and st.value is not None:
+            d[st.target.id] = ast.unparse(st.value)
+    if d.get("exclude_prefixes") != "DEFAULT_EXCLUDE_PREFIXES" or d.get("exclude_names") != "DEFAULT_EXCLUDE_NAMES" or d.get("max_body_statements") != "3":
+        raise Unsupported(f"MethodPropertyConfig defaults: {d}")
+    init = find_func(find_class(parse(MP + "python_analyzer.py"), MA), "__init__")
+    if ast.unparse(init.args.defaults[0]) != d["max_body_statements"]:
+        raise Unsupported("max_body_statements defaults disagree")
+    # the documented lists (docs/method-property-linter.md, "Default Exclusions")
+    from translator.lib import source
+    t = source("docs/method-property-linter.md")
+    mp = re.search(r"\*\*Default Prefixes\*\*[^\n]*\n- (.+)", t)
+    mn = re.search(r"\*\*Default Names\*\*[^\n]*\n- (.+)", t)
+    if not mp or not mn:
+        raise Unsupported("documented default exclusions not found")
+    doc_p = [x.rstrip("*") for x in re.findall(r"`([a-z_]+\*?)`", mp.group(1))]
+    doc_n = sorted(re.findall(r"`([a-z_]+)`", mn.group(1)))
+    return (_s("mp_dunder_prefix", a["a"]) + _s("mp_dunder_suffix", a["b"])
+            + defn("mp_exclude_prefixes", "list string", coq_str_list(prefixes)) + defn("mp_exclude_names", "list string", coq_str_list(names))
+            + defn("mp_doc_exclude_prefixes", "list string", coq_str_list(doc_p)) + defn("mp_doc_exclude_names", "list string", coq_str_list(doc_n))
+            + defn("mp_max_body_statements", "nat", d["max_body_statements"]))
+
+
+def method_property_shape():
+    _match(MP + "python_analyzer.py", MA, "_has_decorators", "return len(method.decorator_list) > 0")
+    _match(MP + "python_analyzer.py", MA, "_takes_only_self", """
+args = method.args
+has_only_self_arg = len(args.args) == 1
+has_extra_args = self._has_extra_args(args)
+return has_only_self_arg and (not has_extra_args)""")
+    _match(MP + "python_analyzer.py", MA, "_has_extra_args", """
+has_positional_only = bool(args.posonlyargs)
+has_vararg = args.vararg is not None
+has_keyword_only = bool(args.kwonlyargs)
+has_kwarg = args.kwarg is not None
+has_defaults = bool(args.defaults)
+has_kw_defaults = args.kw_defaults and any((d is not None for d in args.kw_defaults))
+return any([has_positional_only, has_vararg, has_keyword_only, has_kwarg, has_defaults, has_kw_defaults])""")
+    _match(MP + "python_analyzer.py", MA, "_has_simple_body", """
+body = self._get_non_docstring_body(method)
+if len(body) > self.max_body_statements:
+    return False
+if len(body) == 0:
+    return False
+return True""")
+    a = _match(MP + "python_analyzer.py", MA, "_get_non_docstring_body", """
+body = method.body
+if not body:
+    return []
+first = body[0]
+if isinstance(first, <C:e>) and isinstance(first.value, <C:c>):
+    if isinstance(first.value.value, str):
+        return body[1:]
+return body""")
+    _match(MP + "python_analyzer.py", MA, "_returns_value", """
+body = self._get_non_docstring_body(method)
+if not body:
+    return False
+last = body[-1]
+return self._is_value_return(last)""")
+    b = _match(MP + "python_analyzer.py", MA, "_is_value_return", """
+if not isinstance(node, <C:r>):
+    return False
+if node.value is None:
+    return False
+if isinstance(node.value, <C:c>) and node.value.value is None:
+    return False
+return True""")
+    return _s("mp_expr_cls", a["e"]) + _s("mp_const_cls", a["c"]) + _s("mp_return_cls", b["r"]) + _s("mp_return_const_cls", b["c"])
+
+
+def method_property_effects():
+    _match(MP + "python_analyzer.py", MA, "_has_side_effects", "return any((self._is_side_effect_node(node) for node in ast.walk(method)))")
+    _match(MP + "python_analyzer.py", MA, "_is_side_effect_node",
+           "return self._is_self_assign(node) or self._is_self_aug_assign(node) or self._is_self_ann_assign(node) or self._is_self_delete(node)")
+    a = _match(MP + "python_analyzer.py", MA, "_is_self_assign", "return isinstance(node, <C:c>) and self._assigns_to_self(node.targets)")
+    b = _match(MP + "python_analyzer.py", MA, "_is_self_aug_assign", "return isinstance(node, <C:c>) and self._is_self_target(node.target)")
+    c = _match(MP + "python_analyzer.py", MA, "_is_self_ann_assign", """
+if not isinstance(node, <C:c>):
+    return False
+return node.value is not None and self._is_self_target(node.target)""")
+    d = _match(MP + "python_analyzer.py", MA, "_is_self_delete", "return isinstance(node, <C:c>) and self._assigns_to_self(node.targets)")
+    _match(MP + "python_analyzer.py", MA, "_assigns_to_self", "return any((self._is_self_target(target) for target in targets))")
+    e = _match(MP + "python_analyzer.py", MA, "_is_self_target", """
+if isinstance(target, <C:a>):
+    if isinstance(target.value, <C:n>) and target.value.id == <S:self>:
+        return True
+return False""")
+    _match(MP + "python_analyzer.py", MA, "_has_control_flow", "return any((isinstance(node, self._CONTROL_FLOW_TYPES) for node in ast.walk(method)))")
+    cf = attr_elems_of(find_assign(find_class(parse(MP + "python_analyzer.py"), MA), "_CONTROL_FLOW_TYPES"))
+    g = _match(MP + "python_analyzer.py", MA, "_has_external_calls", """
+call_nodes = (node for node in ast.walk(method) if isinstance(node, <C:call>))
+return any((self._is_external_function_call(node) for node in call_nodes))""")
+    f = _match(MP + "python_analyzer.py", MA, "_is_external_function_call", """
+func = call.func
+if isinstance(func, <C:n>):
+    return True
+if isinstance(func, <C:a>):
+    return False
+return False""")
+    rid = _match(MP + "linter.py", "MethodPropertyRule", "rule_id", "return <S:r>")["r"]
+    return (_s("mp_assign_cls", a["c"]) + _s("mp_augassign_cls", b["c"]) + _s("mp_annassign_cls", c["c"]) + _s("mp_delete_cls", d["c"])
+            + _s("mp_self_attr_cls", e["a"]) + _s("mp_self_name_cls", e["n"]) + _s("mp_self_name", e["self"])
+            + defn("mp_control_flow", "list string", coq_str_list(cf)) + _s("mp_call_cls", g["call"]) + _s("mp_call_name_cls", f["n"]) + _s("mp_rule_id", rid))
+
+
+def attr_elems_of(e):
+    from translator.lib import attr_elems
+    return attr_elems(e, "ast")
+
+
 ITEMS = [
     ("print_call", print_call),
     ("main_block", main_block),
@@ -375,4 +696,11 @@ ITEMS = [
     ("concat_emit", concat_emit),
     ("concat_report", concat_report),
     ("concat_doc_names", concat_doc_names),
+    ("stateless_class", stateless_class),
+    ("stateless_exemptions", stateless_exemptions),
+    ("stateless_rule", stateless_rule),
+    ("method_property_walk", method_property_walk),
+    ("method_property_names", method_property_names),
+    ("method_property_shape", method_property_shape),
+    ("method_property_effects", method_property_effects),
 ]
